@@ -129,6 +129,7 @@ class Algebra(object):
         self.int_mod = int_mod
         self.maxdepth = 0
         self.names = {}
+        self.budget = None    # optional cap on monomial products per multiplication (raises ValueError)
 
     # variables ------------------------------------------------------------------------
     def var_for_atom(self, t):
@@ -166,6 +167,8 @@ class Algebra(object):
     def mul(self, a, b):
         if a.is_zero() or b.is_zero():
             return Poly()
+        if self.budget is not None and len(a.t) * len(b.t) > self.budget:
+            raise ValueError('polynomial product exceeds the budget (%d x %d monomials)' % (len(a.t), len(b.t)))
         r = {}
         need_reduce = False
         for m1, c1 in a.t.items():
@@ -330,8 +333,27 @@ class Algebra(object):
         return (Poly.var(v), ONE)
 
     # opaque functions on rational values (shared by the term translation and the spec library) ------
+    def _nonneg(self, p):
+        """manifestly non-negative polynomial: positive coefficients, even exponents (square roots are non-negative themselves)"""
+        for v, q in self.rel.items():
+            info = self.var_info.get(v, ('?',))
+            if info[0] == 'fn' and info[1] == 'sqrt' and q == p:
+                return True      # the radicand of a square root already taken
+        for m, c in p.t.items():
+            if c <= 0:
+                return False
+            for (v, e) in m:
+                info = self.var_info.get(v, ('?',))
+                if e % 2 and not (info[0] == 'fn' and info[1] == 'sqrt'):
+                    return False
+        return True
+
     def sqrt_r(self, a):
         a = self.r_norm(a)
+        if a[1] != ONE and self._nonneg(a[1]):
+            # sqrt(n/d) = sqrt(n*d)/d for d > 0: keeps the relation polynomial
+            inner = self.sqrt_r((self.mul(a[0], a[1]), ONE))
+            return (inner[0], a[1])
         v = self.opaque_fn('sqrt', self.r_key(a), a)
         if v not in self.rel and a[1] == ONE:
             self.rel[v] = a[0]
